@@ -354,7 +354,7 @@ func hBuildPolicyCase() hPolicyCase {
 	return c
 }
 
-// verif:harness props=C16 tier=quick native=yes weight=60 shards=6 tshards=12
+// verif:harness props=C16 tier=quick native=yes weight=60
 // verif:bounds quick: scheme from {http, HTTPS, ftp}; host from {name, upper case + trailing dot + port, private v4 literal with port, bracketed v6 loopback with port}; https_only / dns_rebind_protection on/off; deny from {none, exact host, 10/8}, allow from {none, *.domain, *}; resolver answers one arbitrary IPv4 address (all 2^32) or fails. thorough: schemes + {https, empty}, hosts + {look-alike domain, public literal, empty}, every rule from {exact, *.domain, 10/8, /24, *} on either side, 1-2 answers
 func VerifC16Policy() {
 	c := hBuildPolicyCase()
@@ -368,7 +368,7 @@ func VerifC16Policy() {
 
 // ---- enforcement: no request unless the policy allowed it; every redirect hop re-checked ----
 
-// verif:harness props=C16 tier=quick weight=8 shards=1 tshards=12
+// verif:harness props=C16 tier=quick weight=8
 // verif:bounds quick: 7 representative verdicts (allowed, https_only violation, deny hit, allow-list miss, rebind with an arbitrary resolved IPv4 address, resolver failure, private IP literal); thorough: the whole VerifC16Policy space (hosts without the empty one); (*http.Client).Do is a havoc stub returning any status or a transport error
 func VerifC16DeliverEnforces() {
 	c := hEnforcementCase()
@@ -396,7 +396,7 @@ func VerifC16DeliverEnforces() {
 	}
 }
 
-// verif:harness props=C16 tier=quick native=yes weight=10 shards=2 tshards=12
+// verif:harness props=C16 tier=quick native=yes weight=10
 // verif:bounds redirect hop URL/policy/resolver: quick the 7 representative verdicts of VerifC16DeliverEnforces, thorough the whole VerifC16Policy space; 0..11 earlier hops; the previous hop is on the same host, on another host, or absent; redirects enabled or disabled
 func VerifC16Redirects() {
 	c := hEnforcementCase()
